@@ -250,6 +250,10 @@ def replay_case(mod, pid, path, times=3, quiet=False):
     """Re-execute a stored case outside Hypothesis. Returns (fails_every_time, message)."""
     with open(path) as f:
         body = json.load(f)
+    if body["subcheck"].startswith("static") and hasattr(mod, "static_checks"):
+        st_ = mod.static_checks("quick", body.get("seed", 0))
+        hit = [f for f in st_.get("failures", []) if f[3] == body.get("signature")]
+        return (bool(hit), "%s: %s" % (hit[0][3], hit[0][4]) if hit else "")
     sub = [s for s in mod.SUBCHECKS if s.name == body["subcheck"]]
     if not sub:
         raise HarnessError("unknown subcheck %s" % body["subcheck"])
